@@ -34,6 +34,8 @@ HERE = os.path.dirname(os.path.dirname(os.path.abspath(__file__)))
 
 MAX_BUCKETS = 4  # root-cause buckets shrunk per shard
 SHRINK_CALLS = {"quick": 400, "thorough": 3000}
+# wall-clock cap on shrinking one bucket (affects only how small the replay file is, never pass/fail)
+SHRINK_SECONDS = {"quick": 45.0, "thorough": 600.0}
 
 
 # --------------------------------------------------------------------------------------------
@@ -253,7 +255,9 @@ def _drive(run_hypothesis, col, tier, to_spec=lambda s: s):
         def body(spec, outcome_fn, count=True, st=st):
             if st["harness"] is not None or st["target"] is not None:
                 st["after"] += 1
-                if st["after"] > budget:
+                if st.get("t0") is None:
+                    st["t0"] = time.time()
+                if st["after"] > budget or time.time() - st["t0"] > SHRINK_SECONDS[tier]:
                     # shrinking budget exhausted: only the best known failing case still fails,
                     # so the shrinker stops and the final replay of the minimal case is stable
                     if spec_hash(spec) in st["failing"]:
@@ -284,6 +288,10 @@ def _drive(run_hypothesis, col, tier, to_spec=lambda s: s):
                 size = len(json.dumps(spec, default=str))
                 if st["hit"] is None or size <= st["hit"][3]:
                     st["hit"] = (spec, hits[0], h, size)
+                if hits[0].data.get("noshrink"):
+                    # failures that are not a pure function of the case (free-running threads): keep
+                    # the case as found, do not spend the budget shrinking it
+                    st["after"] = budget
                 raise PropertyViolation(hits[0].msg)
 
         try:
